@@ -684,8 +684,15 @@ func (a *afCtx) sequence() {
 			per[r] = rr
 			order = append(order, r)
 		}
+		// a success return is a return whose error IS nil: when the returned
+		// value's nil-ness is open on this path, evaluate the case "it is nil"
+		// (so `if !os.IsNotExist(err) { return err }` with err the Stat error is
+		// the already-exists shortcut exactly when it reports success)
+		if rv := st.deref(r.Results[ei]); !ir.IsNilConst(rv) && nilness(st, rv) == triUnknown {
+			st.facts[rv] = triNo // st is not used after a return
+		}
 		for e := range a.statErrs {
-			if st.facts[e] == triNo {
+			if nilness(st, e) == triNo {
 				rr.shortcut = true
 				return
 			}
